@@ -43,3 +43,27 @@ def distInf (a b : Mat) : Rat :=
 def ofK (ks : List K) : Mat := ks.map toRat
 
 end KRat
+
+/-- `Scalar ℚ`, for kernel evaluation of model functions that are built from `+ − × ÷`, comparisons and constants only
+    (matrix code).  The transcendental fields are junk (`0`) and must not be reached by anything evaluated at this instance;
+    every theorem that uses it says which model function it evaluates. -/
+instance instScalarRat : Scalar Rat where
+  ofScientific := KRat.sci
+  const := KRat.toRat
+  abs := KRat.absR
+  sqrt := fun _ => 0
+  cbrt := fun _ => 0
+  exp := fun _ => 0
+  ln := fun _ => 0
+  floor := fun q => (q.floor : Rat)
+  ceil := fun q => (q.ceil : Rat)
+  round := fun _ => 0
+  sin := fun _ => 0
+  cos := fun _ => 0
+  powf := fun _ _ => 0
+  atan2 := fun _ _ => 0
+  min := fun a b => if a ≤ b then a else b
+  max := fun a b => if a ≤ b then b else a
+  isValidDivisor := fun q => decide (q ≠ 0)
+  decLt := fun a b => inferInstanceAs (Decidable (a < b))
+  decLe := fun a b => inferInstanceAs (Decidable (a ≤ b))
